@@ -218,7 +218,21 @@ def history_body(env, p):
         else:
             env.check(err is None, f"{kind} {sg}->{dg} failed with {err}")
         m = m2
-        # the state must equal the reference namespace after every step
+        # the state must equal the reference namespace after every step - read back from another working directory than the one the
+        # operations ran in (a stored path must not depend on where the process happened to be)
+        _cwd = os.getcwd()
+        _else = os.path.join(os.path.dirname(files[0]), "elsewhere")
+        os.makedirs(_else, exist_ok=True)
+        os.chdir(_else)
+        try:
+            _verify_state(env, co, fo, m, files, contents, weights)
+        finally:
+            os.chdir(_cwd)
+    return trace
+
+
+def _verify_state(env, co, fo, m, files, contents, weights):
+    if True:
         for fi, fl in enumerate(files):
             exists = env.h5.is_hdf5(fl)
             if fl not in m.files:
@@ -254,7 +268,6 @@ def history_body(env, p):
         fh = env.h5.File(files[0], "r")
         env.check(fh.attrs.get("note") == "keep", "an unrelated file attribute was lost")
         fh.close()
-    return trace
 
 
 history_sym, history_real = both(history_body)
